@@ -416,9 +416,17 @@ def fuse_prov(ctx: Ctx) -> None:
 DISPATCHERS = (f"{A.PBW}._map_nested_impl", f"{A.PBW}.apply_blockwise_key_func", f"{A.PBW}.apply_blockwise_func")
 
 
-def _lazy_value(v: ast.AST) -> bool:
+def _is_generator_def(d: Def) -> bool:
+    return any(isinstance(n, (ast.Yield, ast.YieldFrom)) for n in d.own_nodes())
+
+
+def _lazy_value(v: ast.AST, repo: Repo | None = None, d: Def | None = None) -> bool:
     if isinstance(v, ast.GeneratorExp):
         return True
+    if repo is not None and isinstance(v, ast.Call):
+        ts = [t for t in repo.resolve_call(v, d, d.module) if t.kind == "def" and t.ref.is_func]
+        if ts and all(_is_generator_def(t.ref) for t in ts):
+            return True  # a generator function of the repo: lazy by construction
     if isinstance(v, ast.Call) and isinstance(v.func, ast.Name) and v.func.id in ("map", "iter", "zip", "filter"):
         if v.func.id == "iter" and v.args and isinstance(v.args[0], (ast.ListComp, ast.List, ast.Tuple)):
             return False
@@ -458,11 +466,11 @@ def nest_lazy(ctx: Ctx) -> None:
             v = r.stmt.value
             if kind == "list":
                 seen.add(kind)
-                ok = isinstance(v, (ast.ListComp, ast.List))
+                ok = isinstance(v, (ast.ListComp, ast.List)) or (isinstance(v, ast.Call) and isinstance(v.func, ast.Name) and v.func.id == "list")
                 ctx.ob(d, r.stmt, ok, f"{d.name}: a list of blocks maps to a list", sel="nest:list")
             elif kind == "iterator":
                 seen.add(kind)
-                ok = _lazy_value(v)
+                ok = _lazy_value(v, repo, d)
                 ctx.ob(d, r.stmt, ok, f"{d.name}: an iterator of blocks maps to a lazy iterator" + ("" if ok else f" — `{unparse(v, 50)}` materialises every block at once (projected memory assumes one at a time)"), sel="nest:iterator")
         ctx.ob(d, None, {"list", "iterator"} <= seen, f"{d.name} distinguishes the list and the iterator case", sel="nest:cases")
     # key functions that return a variable number of blocks per argument stream them
@@ -482,6 +490,62 @@ def nest_lazy(ctx: Ctx) -> None:
             if isinstance(c, (ast.ListComp, ast.List)) and any(isinstance(n, ast.Name) and n.id == p for g in getattr(c, "generators", []) for n in ast.walk(g.iter)):
                 bad.append(c)
         ctx.ob(d, bad[0] if bad else None, not bad, f"{d.name} consumes its block stream one block at a time (for / zip / next), never materialising it", sel=f"stream:block:{d.name}", props=["C03"])
+
+
+def _per_element_dispatch(repo: Repo, d: Def, seq: str, dct: str, per_key: str, depth: int):
+    """Sites in d where elements of parameter `seq` are mapped: yields (ok, node, why)."""
+    cfg, fl = cfg_of(d), flow_of(repo, d)
+    found = False
+    # comprehension form
+    for comp in [n for n in d.own_nodes() if isinstance(n, (ast.ListComp, ast.GeneratorExp))]:
+        g = comp.generators[0]
+        if not (isinstance(g.iter, ast.Name) and g.iter.id == seq and isinstance(g.target, ast.Name)):
+            continue
+        found = True
+        el = g.target.id
+        calls = [c for c in ast.walk(comp.elt) if isinstance(c, ast.Call) and c.args and isinstance(c.args[0], ast.Name) and c.args[0].id == el]
+        ok = any(per_key in repo.callee_quals(c, d) and len(c.args) >= 2 and unparse(c.args[1]) == dct for c in calls) or any(isinstance(c.func, ast.Subscript) and unparse(c.func.value) == dct and unparse(c.func.slice) == f"{el}.name" for c in calls)
+        yield ok, comp, "the element is not looked up under its own name"
+    # loop form (generator helper)
+    for ln in cfg.stmts((ast.For, ast.AsyncFor)):
+        it, tg = ln.stmt.iter, ln.stmt.target
+        if not (isinstance(it, ast.Name) and it.id == seq and isinstance(tg, ast.Name)):
+            continue
+        found = True
+        el = tg.id
+        apps = [c for c in d.own_nodes() if isinstance(c, ast.Call) and cfg.has(c) and cfg.in_loop(cfg.node_of(c), ln.id) and c.args and isinstance(c.args[0], ast.Name) and c.args[0].id == el and not (isinstance(c.func, ast.Name) and c.func.id in ("isinstance", "len", "str", "repr"))]
+        for c in apps:
+            at = cfg.node_of(c)
+            if per_key in repo.callee_quals(c, d):
+                yield True, c, ""
+                continue
+            if isinstance(c.func, ast.Subscript) and unparse(c.func.value) == dct and unparse(c.func.slice) == f"{el}.name":
+                yield True, c, ""
+                continue
+            if isinstance(c.func, ast.Name):
+                sites = fl.rdefs(c.func.id, at)
+                fresh = bool(sites) and all(cfg.in_loop(s.node, ln.id) and cfg.dominates(s.node, at) and s.value is not None and dct in unparse(s.value) and f"{el}.name" in unparse(s.value) for s in sites)
+                if fresh:
+                    yield True, c, ""
+                else:
+                    yield False, c, f"`{c.func.id}` applied to `{el}` may come from another element's lookup (a definition outside this iteration, or one that does not dominate the call, reaches it): keys of different arrays in one collection get the wrong predecessor function"
+    # helper form: d hands (seq, dct) to a repo function; analyse that function
+    if depth > 0:
+        for c, ts in repo.calls_in(d):
+            args = [unparse(a) for a in c.args]
+            if seq in args and dct in args:
+                for t in ts:
+                    if t.kind == "def" and t.ref.is_func and t.ref is not d and t.qual != per_key:
+                        h = t.ref
+                        hp = h.positional_params
+                        if len(hp) >= 2:
+                            sub = list(_per_element_dispatch(repo, h, hp[args.index(seq)], hp[args.index(dct)], per_key, depth - 1))
+                            if sub:
+                                found = True
+                                for ok, node, why in sub:
+                                    yield ok, c, f"in helper {h.name}: {why}" if not ok else ""
+    if not found and depth > 0:
+        yield False, None, "no per-element mapping of the collection found"
 
 
 @rule("NEST-DISPATCH-1", props=["C15", "C02"], floor=6)
@@ -507,6 +571,10 @@ def nest_dispatch(ctx: Ctx) -> None:
                 g = comp.generators[0]
                 ok = isinstance(g.target, ast.Name) and isinstance(g.iter, ast.Name) and g.iter.id == kf.params[0] and on is not None and unparse(on) == f"{g.target.id}.name" and not g.ifs
         ctx.ob(kf, c, ok, "apply_blockwise_key_func: each element's FunctionArgs carries that element's array name (it selects the predecessor function later)", sel="dispatch:key-name")
+    # every element of a collection is dispatched by *its own* array name
+    per_key = f"{A.PBW}._apply_blockwise_key_func_to_chunk_key"
+    for site_ok, node, why in _per_element_dispatch(repo, kf, kf.params[0], kf.params[1], per_key, depth=1):
+        ctx.ob(kf, node, site_ok, "apply_blockwise_key_func: each key of a list/stream is mapped through the predecessor key function looked up under that key's own array name" + ("" if site_ok else f" — {why}"), sel="dispatch:per-element-lookup")
     fk = repo.get(f"{A.PBW}.make_fused_back_key_function.fused_key_func")
     for c in repo.calls_to(fk, FA):
         on = kwarg(c, "output_name")
